@@ -187,7 +187,7 @@ func genDocService(t *rapid.T, id string) map[string]interface{} {
 		// further members of a service are opaque and kept; names that differ from id / type / serviceEndpoint only in letter
 		// case are further members too
 		name := rapid.SampledFrom([]string{"Type", "ID", "Id", "ServiceEndpoint", "TYPE", "serviceendpoint", "description", "@type", "Priority"}).Draw(t, "svcFurtherName")
-		s[name] = rapid.SampledFrom([]interface{}{"further", float64(7), []interface{}{"a"}, map[string]interface{}{"k": "v"}}).Draw(t, "svcFurtherValue")
+		s[name] = rapid.SampledFrom([]interface{}{"further", nil, float64(7), []interface{}{"a"}, map[string]interface{}{"k": "v"}, false, ""}).Draw(t, "svcFurtherValue")
 	}
 	return s
 }
